@@ -786,6 +786,17 @@ class FakeSeries(_S):
     def all(self):
         return self.arr.all()
 
+    def isnull(self):
+        from .values import isnan as _isnan
+        a = self.arr
+        if a.dtype.kind != "f":
+            if a.dtype.kind in "mM":
+                raise OutsideModel("Series.isnull on temporal data")
+            return A([False] * len(a), "bool")
+        return A([_isnan(c) for c in a.cells], "bool")
+
+    isna = isnull
+
     def any(self):
         return self.arr.any()
 
@@ -900,14 +911,41 @@ class FakeFrame(_S):
         return _Loc(self)
 
 
+class FakeCategorical(_S):
+    def __init__(self, codes, categories):
+        self.codes = codes
+        self.categories = list(categories.labels) if isinstance(categories, LIndex) else list(categories)
+
+    @classmethod
+    def from_codes(cls, codes, categories=None, **kw):
+        return cls(codes, categories)
+
+
+def _make_index(data=None, name=None, **kw):
+    """pd.Index(...) : a labelled model for concrete label lists, the length-only model otherwise"""
+    if isinstance(data, (list, tuple)) and all(isinstance(x, (str, int, float)) for x in data):
+        return LIndex(list(data), name)
+    return FakeIndex(data if data is not None else 0)
+
+
+class _IndexMeta(type):
+    def __instancecheck__(cls, obj):
+        return isinstance(obj, FakeIndex)
+
+    def __call__(cls, *a, **k):
+        return _make_index(*a, **k)
+
+
+class _IndexFactory(metaclass=_IndexMeta):
+    pass
+
+
 class PDShim:
     Series = FakeSeries
     DataFrame = FakeFrame
-    Index = FakeIndex
+    Index = _IndexFactory
     RangeIndex = FakeRangeIndex
-
-    class Categorical(_S):
-        pass
+    Categorical = FakeCategorical
 
     class MultiIndex(_S):
         def __init__(self, codes=None, levels=None, names=None, **kw):
